@@ -150,8 +150,8 @@ PLAN = {
         level_text="Generated-input search with a differential/metamorphic oracle (many routes to one answer must agree with a single-route reference), plus a bounded enumeration of creation paths x wrapper chains x targets. Exploration level.",
         level_note="The reference is produced by the library itself on the simplest route (core New + X.Wrap(t).Render()), so an error common to all routes is invisible here (C03-C08 judge content). Items whose %v text embeds a memory address are not generated (two builds cannot agree on them).",
         technique="property-based testing (rapid) with a differential/metamorphic route-agreement oracle + bounded enumeration of configurations",
-        quick=[rapid("prop", "TestProp", 3000), enum("routes", "TestEnum", shards=12)],
-        thorough=[rapid("prop", "TestProp", 60000, shards=16), enum("routes", "TestEnum", shards=12)],
+        quick=[rapid("prop", "TestProp", 3000), rapid("shadow", "TestShadow", 1500), enum("routes", "TestEnum", shards=12)],
+        thorough=[rapid("prop", "TestProp", 60000, shards=16), rapid("shadow", "TestShadow", 20000, shards=8), enum("routes", "TestEnum", shards=12)],
     ),
     "C11": dict(
         pkg="c11",
@@ -229,8 +229,10 @@ PLAN = {
         level_text=("Generated concurrent programs under the Go race detector with a sequential-reference differential oracle; schedules are sampled (many rounds, a yielding writer, several GOMAXPROCS values in the thorough tier), not enumerated. Exploration level."),
         level_note="The harness does not own Go's scheduler: an interleaving-dependent output mix-up that involves no unsynchronised access is found only if a sampled schedule hits it. The race detector reports an unsynchronised conflicting pair whenever both accesses execute in a run.",
         technique="property-based testing (rapid) of generated concurrent programs under the Go race detector, differential against a sequential run",
-        quick=[rapid("prop", "TestProp", 300, race=True, env={"GORACE": "halt_on_error=1"}, shrinktime="5s")],
-        thorough=[rapid("prop", "TestProp", 1500, shards=16, race=True, env={"GORACE": "halt_on_error=1"}, gomaxprocs=[2, 4, 8, 16], shrinktime="5s")],
+        quick=[rapid("prop", "TestProp", 300, race=True, env={"GORACE": "halt_on_error=1"}, shrinktime="5s"),
+               enum("sizes", "TestSizes", race=True, env={"GORACE": "halt_on_error=1"})],
+        thorough=[rapid("prop", "TestProp", 1500, shards=16, race=True, env={"GORACE": "halt_on_error=1"}, gomaxprocs=[2, 4, 8, 16], shrinktime="5s"),
+                  enum("sizes", "TestSizes", race=True, env={"GORACE": "halt_on_error=1"})],
     ),
     "C17": dict(
         pkg="c17",
